@@ -465,7 +465,12 @@ func (g *FnGen) convert(i *ssa.Convert) {
 		g.heapSet(g.cur, fam, fmt.Sprintf("(store %s %s %s)", h, ref, row))
 		_ = r
 	case isString(to) && fi:
-		g.unknown(i)
+		// string(x) for an integer x: the UTF-8 encoding of code point x -- an injective function; one byte for ASCII
+		xt := x.T
+		if g.mode == "bv" {
+			xt = g.convertInt(x, from, types.Typ[types.Int64]).T
+		}
+		g.define(i, g.runeStr(xt), "Str")
 	default:
 		if isFloat(from) && !isFloat(to) {
 			if _, _, ok := intInfo(to); ok {
@@ -948,4 +953,35 @@ func (g *FnGen) runeRange(t string) string {
 		return fmt.Sprintf("(and (bvsle (_ bv0 32) %s) (bvsle %s (_ bv1114111 32)))", t, t)
 	}
 	return fmt.Sprintf("(and (<= 0 %s) (<= %s 1114111))", t, t)
+}
+
+// runeStr: string(x) of an integer value (uninterpreted, injective, single byte for 0 <= x < 128).
+func (g *FnGen) runeStr(x string) string {
+	if !g.declared["rune-str"] {
+		g.declared["rune-str"] = true
+		xs := g.isort(64)
+		if g.mode == "int" {
+			xs = "Int"
+		}
+		g.decls = append(g.decls, fmt.Sprintf("(declare-fun rune-str (%s) Str)", xs), fmt.Sprintf("(declare-fun rune-str-inv (Str) %s)", xs))
+		lo, hi := "0", "128"
+		lt, le := "<", "<="
+		if g.mode == "bv" {
+			lo, hi = g.ilit64(0), g.ilit64(128)
+			lt, le = "bvslt", "bvsle"
+		}
+		ax := fmt.Sprintf("(forall ((rs!x %s)) (! (and (= (rune-str-inv (rune-str rs!x)) rs!x) (%s %s (slen (rune-str rs!x))) (=> (and (%s %s rs!x) (%s rs!x %s)) (and (= (slen (rune-str rs!x)) %s) (= (sat (rune-str rs!x) %s) ((_ extract 7 0) rs!x))))) :pattern ((rune-str rs!x))))",
+			xs, le, g.ilit64(1), le, lo, lt, hi, g.ilit64(1), g.ilit64(0))
+		if g.mode == "int" {
+			ax = fmt.Sprintf("(forall ((rs!x Int)) (! (and (= (rune-str-inv (rune-str rs!x)) rs!x) (<= 1 (slen (rune-str rs!x))) (=> (and (<= 0 rs!x) (< rs!x 128)) (and (= (slen (rune-str rs!x)) 1) (= (sat (rune-str rs!x) 0) rs!x)))) :pattern ((rune-str rs!x))))")
+		}
+		g.assumes = append([]string{ax}, g.assumes...)
+		for _, o := range g.obls {
+			o.nAssume++
+		}
+		for i := range g.covers {
+			g.covers[i].nAssume++
+		}
+	}
+	return fmt.Sprintf("(rune-str %s)", x)
 }
